@@ -1,26 +1,372 @@
-//! C17: not implemented yet.
+//! C17: the compiler never crashes on any package.
+//! Monitor: generated programs and token/line-level mutants of corpus programs are compiled
+//! through the whole pipeline with the harness's own diagnostics handler; a panic (caught, with
+//! call site) or an "internal compiler error" diagnostic is a violation.
 use crate::common::*;
+use crate::e2e;
+use crate::engine::*;
+use crate::swrun::*;
 use crate::{Plan, Prop};
+use rand::rngs::StdRng;
+use rand::Rng;
+use serde_json::{json, Value};
+use std::panic::AssertUnwindSafe;
+use std::time::Duration;
 
 pub static META: PropertyMeta = PropertyMeta {
     id: "C17",
     level: "exploration",
-    rule: "not implemented",
-    assumptions: &[],
-    floor_evaluations: 1,
-    floor_nontrivial: 2,
-    required_counters: &[],
+    rule: "part A: a FIXED enumerated set of SwGen programs (base seed 0xC17, indices 0..6000; VERIF_SEED only rotates the order; quick covers a prefix per shard, thorough the whole set) - fixed because the unchanged compiler already has several internal-error classes on valid generated programs, each listed as a finding by message class / call site; part B (seed-driven): token- and line-level mutants (delete/duplicate/swap/replace tokens, swap types, rename/duplicate/delete declarations and statements, change literal suffixes) of single-file e2e programs; every case is compiled in debug and release through parsing, type checking, IR, asm and bytecode; an evaluation = one package; non-trivial = the package reached IR generation (no front-end error) or died inside the compiler; distinct = hash of the source text",
+    assumptions: &[
+        "a per-case watchdog expiry (possible non-termination) and an allocation failure under the 6 GiB address-space limit are recorded as inconclusive, never as violations",
+        "un-suffixed numeric literals heading long operator chains (a known exponential type-checking case) are not manufactured by the mutators",
+    ],
+    floor_evaluations: 100,
+    floor_nontrivial: 30,
+    required_counters: &["reached_ir_or_beyond", "rejected_by_front_end", "mutants", "generated_programs"],
 };
 
 pub static PROP: Prop = Prop {
     meta: &META,
-    plan: |_t| Plan { nshards: 1, budget_s: 1.0, mem_gib: 0 },
-    shard: |_ctx| {
-        let mut r = ShardResult::default();
-        r.harness_fault = Some("not implemented".into());
-        r
-    },
-    replay: crate::no_replay,
+    plan: |t| Plan { nshards: 16, budget_s: t.pick(60.0, 1500.0), mem_gib: 6 },
+    shard,
+    replay,
     extra: crate::no_extra,
     subcommand: crate::no_subcommand,
 };
+
+const FIXED_SEED: u64 = 0xC17;
+const FIXED_SET: u64 = 6000;
+
+fn is_ice(e: &sway_error::error::CompileError) -> bool {
+    use sway_error::error::CompileError as E;
+    matches!(e, E::Internal(..) | E::InternalOwned(..)) || format!("{e}").starts_with("Internal compiler error")
+}
+
+/// message class: letters kept, everything else collapsed
+fn ice_signature(msg: &str) -> String {
+    let m = msg.trim_start_matches("Internal compiler error: ");
+    // drop quoted / numbered specifics after the first sentence part
+    let head: String = m.chars().take(60).collect();
+    format!("ice:{}", bucket(&head).trim())
+}
+
+pub fn compile_case(am: &mut Amortised, src: &str, what: &str, replay: Value, res: &mut ShardResult) {
+    res.evaluations += 1;
+    let dir = am_write(am, src);
+    let mut reached_ir = false;
+    let mut died = false;
+    for profile in Profile::BOTH {
+        match catch(AssertUnwindSafe(|| am.diagnose_dir(&dir, profile))) {
+            Err((loc, msg)) => {
+                died = true;
+                if msg.contains("memory allocation") {
+                    res.inconclusive(format!("allocation failure while compiling ({what})"));
+                    continue;
+                }
+                res.violation(panic_signature(&loc, &msg), format!("[{} {what}] compiler panicked at {loc}: {}", profile.name(), msg.chars().take(200).collect::<String>()), replay.clone());
+            }
+            Ok(Err(e)) => {
+                res.count("harness_could_not_set_up_package");
+                res.inconclusive(format!("package set-up failed: {e}"));
+            }
+            Ok(Ok((errors, produced))) => {
+                if produced {
+                    res.count("produced_bytecode");
+                    reached_ir = true;
+                }
+                let mut front_end_error = false;
+                for e in &errors {
+                    if is_ice(e) {
+                        died = true;
+                        let msg = format!("{e}");
+                        res.violation(ice_signature(&msg), format!("[{} {what}] {}", profile.name(), msg.chars().take(220).collect::<String>()), replay.clone());
+                    } else {
+                        front_end_error = true;
+                        if res.counters.len() < 400 {
+                            res.count(&format!("diag.{}", bucket(&format!("{e}").chars().take(40).collect::<String>())));
+                        }
+                    }
+                }
+                if front_end_error && !produced {
+                    res.count("rejected_by_front_end");
+                } else if !produced && errors.is_empty() {
+                    res.count("no_artifact_no_diagnostic");
+                    res.violation("no-artifact-no-diagnostic".to_string(), format!("[{} {what}] compilation produced neither artifacts nor diagnostics", profile.name()), replay.clone());
+                } else {
+                    reached_ir = true;
+                }
+            }
+        }
+    }
+    if reached_ir {
+        res.count("reached_ir_or_beyond");
+    }
+    if reached_ir || died {
+        res.note_nontrivial(hash64(src.as_bytes()));
+    }
+    let _ = std::fs::remove_dir_all(&dir);
+}
+
+fn am_write(am: &mut Amortised, src: &str) -> std::path::PathBuf {
+    let dir = am.scratch_dir();
+    let _ = write_pkg(&dir, "gencase", src, true);
+    dir
+}
+
+// ------------------------------------------------------------------------------------------
+// mutators
+
+fn tokens(src: &str) -> Vec<(usize, usize)> {
+    // (start, end) of identifier/number tokens and single punctuation characters; skips comments/strings roughly
+    let b = src.as_bytes();
+    let mut out = vec![];
+    let mut i = 0;
+    while i < b.len() {
+        let c = b[i];
+        if c.is_ascii_whitespace() {
+            i += 1;
+        } else if c == b'/' && i + 1 < b.len() && b[i + 1] == b'/' {
+            while i < b.len() && b[i] != b'\n' {
+                i += 1;
+            }
+        } else if c == b'"' {
+            let s = i;
+            i += 1;
+            while i < b.len() && b[i] != b'"' {
+                if b[i] == b'\\' {
+                    i += 1;
+                }
+                i += 1;
+            }
+            i = (i + 1).min(b.len());
+            out.push((s, i));
+        } else if c.is_ascii_alphanumeric() || c == b'_' {
+            let s = i;
+            while i < b.len() && (b[i].is_ascii_alphanumeric() || b[i] == b'_') {
+                i += 1;
+            }
+            out.push((s, i));
+        } else if c < 128 {
+            out.push((i, i + 1));
+            i += 1;
+        } else {
+            // skip a multi-byte character as one token
+            let s = i;
+            i += 1;
+            while i < b.len() && (b[i] & 0xC0) == 0x80 {
+                i += 1;
+            }
+            out.push((s, i));
+        }
+    }
+    out
+}
+
+const TYPE_WORDS: [&str; 12] = ["u8", "u16", "u32", "u64", "u256", "bool", "b256", "str", "raw_ptr", "Vec", "Option", "Self"];
+const KEYWORDS: [&str; 14] = ["fn", "let", "mut", "struct", "enum", "impl", "trait", "match", "if", "else", "while", "return", "const", "pub"];
+
+pub fn mutate(rng: &mut StdRng, src: &str, res: &mut ShardResult) -> String {
+    let mut s = src.to_string();
+    let n = rng.gen_range(1..=3);
+    for _ in 0..n {
+        let toks = tokens(&s);
+        if toks.len() < 4 {
+            break;
+        }
+        let k = rng.gen_range(0..toks.len());
+        let (a, b) = toks[k];
+        let op = rng.gen_range(0..11);
+        let name = ["delete_token", "duplicate_token", "swap_tokens", "replace_ident_by_other", "swap_type", "delete_line", "duplicate_line", "swap_lines", "change_literal", "insert_keyword", "rename_decl"][op];
+        res.count(&format!("mut.{name}"));
+        match op {
+            0 => s.replace_range(a..b, ""),
+            1 => {
+                let t = s[a..b].to_string();
+                s.insert_str(b, &format!(" {t}"));
+            }
+            2 => {
+                let k2 = rng.gen_range(0..toks.len());
+                let (c, d) = toks[k2];
+                if b <= c {
+                    let t1 = s[a..b].to_string();
+                    let t2 = s[c..d].to_string();
+                    s.replace_range(c..d, &t1);
+                    s.replace_range(a..b, &t2);
+                }
+            }
+            3 => {
+                // replace an identifier by another identifier of the file
+                let idents: Vec<(usize, usize)> = toks.iter().copied().filter(|(x, y)| s.as_bytes()[*x].is_ascii_alphabetic() && !KEYWORDS.contains(&&s[*x..*y])).collect();
+                if idents.len() >= 2 {
+                    let (x, y) = idents[rng.gen_range(0..idents.len())];
+                    let (p, q) = idents[rng.gen_range(0..idents.len())];
+                    let t = s[p..q].to_string();
+                    s.replace_range(x..y, &t);
+                }
+            }
+            4 => {
+                let tys: Vec<(usize, usize)> = toks.iter().copied().filter(|(x, y)| TYPE_WORDS.contains(&&s[*x..*y])).collect();
+                if !tys.is_empty() {
+                    let (x, y) = tys[rng.gen_range(0..tys.len())];
+                    let t = TYPE_WORDS[rng.gen_range(0..TYPE_WORDS.len())];
+                    s.replace_range(x..y, t);
+                }
+            }
+            5 | 6 | 7 => {
+                let mut lines: Vec<String> = s.lines().map(|l| l.to_string()).collect();
+                if lines.len() >= 3 {
+                    let i = rng.gen_range(0..lines.len());
+                    match op {
+                        5 => {
+                            lines.remove(i);
+                        }
+                        6 => {
+                            let l = lines[i].clone();
+                            lines.insert(i, l);
+                        }
+                        _ => {
+                            let j = rng.gen_range(0..lines.len());
+                            lines.swap(i, j);
+                        }
+                    }
+                    s = lines.join("\n");
+                    s.push('\n');
+                }
+            }
+            8 => {
+                // change a numeric literal (keep a suffix so that no un-suffixed chain head is manufactured)
+                let nums: Vec<(usize, usize)> = toks.iter().copied().filter(|(x, _)| s.as_bytes()[*x].is_ascii_digit()).collect();
+                if !nums.is_empty() {
+                    let (x, y) = nums[rng.gen_range(0..nums.len())];
+                    let old = s[x..y].to_string();
+                    let suffix_pos = old.find('u');
+                    let new = match suffix_pos {
+                        Some(p) => {
+                            let suf = ["u8", "u16", "u32", "u64", "u256"][rng.gen_range(0..5)];
+                            let digits = *crate::common::choose(rng, &["0", "1", "255", "256", "65535", "65536", "4294967296", "18446744073709551615"]);
+                            let _ = p;
+                            format!("{digits}{suf}")
+                        }
+                        None => old.clone(),
+                    };
+                    s.replace_range(x..y, &new);
+                }
+            }
+            9 => {
+                let kw = KEYWORDS[rng.gen_range(0..KEYWORDS.len())];
+                s.insert_str(a, &format!("{kw} "));
+            }
+            _ => {
+                // rename the name after fn/struct/enum/trait at one place only
+                if let Some(pos) = toks.iter().position(|(x, y)| matches!(&s[*x..*y], "fn" | "struct" | "enum" | "trait" | "const")) {
+                    if pos + 1 < toks.len() {
+                        let (x, y) = toks[pos + 1];
+                        s.replace_range(x..y, "renamed_decl");
+                    }
+                }
+            }
+        }
+    }
+    s
+}
+
+/// single-file e2e programs that depend on std (full or reduced): mutation seeds
+fn seed_programs(root: &std::path::Path) -> Vec<(String, String)> {
+    let mut out = vec![];
+    for dirname in ["should_pass/language", "should_pass/stdlib", "should_fail"] {
+        let base = root.join("test_programs").join(dirname);
+        for entry in walkdir::WalkDir::new(&base).max_depth(3).into_iter().filter_map(|e| e.ok()) {
+            if entry.file_name() != "Forc.toml" {
+                continue;
+            }
+            let dir = entry.path().parent().unwrap();
+            let src_dir = dir.join("src");
+            let files: Vec<_> = std::fs::read_dir(&src_dir).map(|rd| rd.filter_map(|e| e.ok()).collect()).unwrap_or_default();
+            if files.len() != 1 {
+                continue;
+            }
+            let manifest = std::fs::read_to_string(entry.path()).unwrap_or_default();
+            if !manifest.contains("std = ") || manifest.contains("contract-dependencies") || manifest.matches(" = {").count() > 1 {
+                continue;
+            }
+            if let Ok(text) = std::fs::read_to_string(files[0].path()) {
+                if text.len() < 6000 && (text.trim_start().starts_with("script;") || text.trim_start().starts_with("library;") || text.trim_start().starts_with("contract;") || text.trim_start().starts_with("predicate;")) {
+                    out.push((dir.strip_prefix(root.join("test_programs")).unwrap().display().to_string(), text));
+                }
+            }
+        }
+    }
+    out.sort();
+    out
+}
+
+fn shard(ctx: &ShardCtx) -> ShardResult {
+    let mut res = ShardResult::default();
+    let mut am = Amortised::new(&ctx.work());
+    if let Err(e) = am.warm() {
+        res.harness_fault = Some(format!("std does not compile: {e}"));
+        return res;
+    }
+    set_watchdog_limit(Duration::from_secs(std::env::var("SWVERIF_CASE_WATCHDOG_S").ok().and_then(|s| s.parse().ok()).unwrap_or(25)));
+    let seeds = match e2e::prepare("C17") {
+        Ok(root) => seed_programs(&root),
+        Err(e) => {
+            res.harness_fault = Some(format!("e2e corpus copy failed: {e}"));
+            return res;
+        }
+    };
+    res.max("max_mutation_seed_programs", seeds.len() as u64);
+    let clock = ctx.clock();
+    let per_shard = FIXED_SET / ctx.nshards;
+    let rot = ctx.seed % per_shard.max(1);
+    // case index i: even = fixed generated program, odd = mutant
+    let mut i = ctx.first_index;
+    while clock.left() {
+        if i % 2 == 0 {
+            let k = i / 2;
+            if k >= per_shard {
+                if ctx.tier == Tier::Thorough && seeds.is_empty() {
+                    break;
+                }
+                i += 1;
+                continue;
+            }
+            let j = ((k + rot) % per_shard) * ctx.nshards + ctx.shard;
+            let mut scratch = ShardResult::default();
+            let case = case_at(FIXED_SEED, 0, j, 1, &mut scratch);
+            res.count("generated_programs");
+            ctx.begin_case(i, &format!("// C17 fixed generated program {j}\n{}", case.src), &res);
+            compile_case(&mut am, &case.src, &format!("fixed generated program {j}"), json!({"fixed_index": j}), &mut res);
+            ctx.end_case();
+        } else if !seeds.is_empty() {
+            let mut rng = ctx.rng(i);
+            let (name, text) = &seeds[rng.gen_range(0..seeds.len())];
+            let m = mutate(&mut rng, text, &mut res);
+            res.count("mutants");
+            ctx.begin_case(i, &format!("// C17 mutant of {name}\n{m}"), &res);
+            compile_case(&mut am, &m, &format!("mutant of {name}"), json!({"source": m, "seed_program": name}), &mut res);
+            ctx.end_case();
+            if res.samples.len() < 2 {
+                res.sample(json!({"mutant_of": name, "source_head": m.lines().take(15).collect::<Vec<_>>()}));
+            }
+        }
+        i += 1;
+    }
+    res
+}
+
+fn replay(v: &Value) -> ShardResult {
+    let mut res = ShardResult::default();
+    let work = work_dir("C17").join("replay");
+    clean_dir(&work);
+    let mut am = Amortised::new(&work);
+    let src = if let Some(j) = v.get("fixed_index").and_then(|x| x.as_u64()) {
+        let mut scratch = ShardResult::default();
+        case_at(FIXED_SEED, 0, j, 1, &mut scratch).src
+    } else {
+        v["source"].as_str().unwrap_or("").to_string()
+    };
+    compile_case(&mut am, &src, "replayed case", v.clone(), &mut res);
+    res
+}
